@@ -3,6 +3,7 @@ package main
 import (
 	"fmt"
 	"go/ast"
+	"go/token"
 	"go/types"
 
 	"golang.org/x/tools/go/ssa"
@@ -204,6 +205,17 @@ func (e *Engine) collectWrites(fr *Frame, st *State, fn *ssa.Function, blocks ma
 					if m, isMap := r.(MapV); isMap && m.Obj != nil {
 						q := PtrV{Obj: m.Obj, Nil: TFalse, Elem: m.Obj.T}
 						*out = append(*out, writeTarget{ptr: &q})
+					}
+				} else if ld, isLoad := x.Map.(*ssa.UnOp); isLoad && ld.Op == token.MUL {
+					// the map is loaded inside the region from a location that exists before it
+					// (a field of a parameter, say): the map stored there is the one updated
+					if p, _, ok := addrOf(ld.X); ok && p.Obj != nil {
+						if m, isMap := e.loadPtr(st, p).(MapV); isMap && m.Obj != nil {
+							q := PtrV{Obj: m.Obj, Nil: TFalse, Elem: m.Obj.T}
+							*out = append(*out, writeTarget{ptr: &q})
+						}
+					} else {
+						e.toolError("loop frame analysis: cannot resolve map in %s", funcKey(fn))
 					}
 				} else {
 					e.toolError("loop frame analysis: cannot resolve map in %s", funcKey(fn))
